@@ -412,8 +412,11 @@ class FactSet:
                 from .normalize import desugar, opaque_tokens
                 for v in raw['functions'].values():
                     if v.get('body') and (v.get('loc') or '').startswith(root) and opaque_tokens(v['body']):
-                        v['body'], n = desugar(v['body'])
-                        self.desugared += n
+                        for _ in range(3):          # a lambda put in place of its name may complete an algorithm call that is then a loop
+                            v['body'], n = desugar(v['body'])
+                            self.desugared += n
+                            if not n:
+                                break
             for v in raw['functions'].values():
                 if v.get('body') and (v.get('loc') or '').startswith(root):
                     v['body'] = normalise(v['body'])
